@@ -96,3 +96,23 @@ func VerifCoalescedFailureBacklog(sys ActorSystem) int {
 
 // VerifAddressOf returns the Address.String() form of pid's address.
 func VerifAddressOf(pid *PID) string { return pid.getAddress().String() }
+
+// VerifCoalescedFailureFrom is VerifCoalescedFailure for a batch whose members
+// come from different senders (one sender address per receiver/payload pair):
+// the send coalescer batches per destination, not per sender.
+func VerifCoalescedFailureFrom(sys ActorSystem, dest string, senders, receivers []string, payloads []any, cause error) error {
+	x, ok := sys.(*actorSystem)
+	if !ok {
+		return errors.New("not an actor system")
+	}
+	batch := make([]*internalpb.RemoteMessage, 0, len(payloads))
+	for i := range payloads {
+		m, err := verifWire(x, senders[i], receivers[i], payloads[i])
+		if err != nil {
+			return err
+		}
+		batch = append(batch, m)
+	}
+	x.enqueueCoalescedFailure(dest, batch, cause)
+	return nil
+}
